@@ -47,6 +47,25 @@ mod refd {
     }
     fn sha256(lay: &Layout, name: &str, env: &Env) -> Vec<u8> { let mut h = Sha3::v256(); feed(&mut h, lay, name, env); let mut o = [0u8; 32]; h.finalize(&mut o); o.to_vec() }
 
+    /// A classic encapsulation built WITHOUT any secret, from public data only: every trap is the neutral element (so the
+    /// session key K1 is the neutral element for every user key), the seed is chosen freely, the masked seed, T, U and the tag
+    /// are recomputed with the public hashes. It is internally consistent - only the Fujisaki-Okamoto check (traps = P_i^G(S))
+    /// tells it from a genuine one. Returns (serialized encapsulation, the secret the forger expects a victim to derive).
+    pub fn forge(lay: &Layout, ntraps: usize, seed: &[u8; 32]) -> (Vec<u8>, Vec<u8>) {
+        let neutral = P::try_from_bytes([0u8; 32]).unwrap().to_bytes().to_vec();
+        let cb: Vec<Vec<u8>> = (0..ntraps).map(|_| neutral.clone()).collect();
+        let mut env = Env { c: &cb, e: vec![], f: vec![], t: vec![], u: vec![], k1: neutral.clone(), k2: vec![], s: seed.to_vec() };
+        env.t = sha256(lay, "T_classic", &env);
+        let pad = sha256(lay, "H_classic", &env);
+        let fbytes: Vec<u8> = pad.iter().zip(seed.iter()).map(|(x, y)| x ^ y).collect();
+        let fs: Vec<&[u8]> = vec![&fbytes];
+        let mut env2 = Env { c: &cb, e: vec![], f: fs, t: env.t.clone(), u: vec![], k1: neutral.clone(), k2: vec![], s: seed.to_vec() };
+        env2.u = sha256(lay, "U", &env2);
+        let mut h = Sha3::v384(); feed(&mut h, lay, "J", &env2); let mut o = [0u8; 48]; h.finalize(&mut o);
+        let mut b = o[..16].to_vec(); b.push(ntraps as u8); for c in &cb { b.extend_from_slice(c); } b.push(0); b.push(1); b.extend_from_slice(&fbytes);
+        (b, o[16..].to_vec())
+    }
+
     pub fn refdecaps(lay: &Layout, uskb: &[u8], encb: &[u8]) -> Option<Option<Vec<u8>>> {
         // parse the user key
         let mut r = Rd::new(uskb);
@@ -130,6 +149,12 @@ fn main() {
                     writeln!(out, "USK {}", hex(&u.serialize().unwrap())).unwrap();
                 }
                 writeln!(out, "END").unwrap();
+            }
+            "FORGE" => {
+                #[cfg(not(feature = "cfg-alt"))]
+                { let (b, s) = refd::forge(&lay, f[1].parse().unwrap(), &[0x5a; 32]); writeln!(out, "FORGED {} {}", hex(&b), hex(&s)).unwrap(); }
+                #[cfg(feature = "cfg-alt")]
+                writeln!(out, "FORGED - -").unwrap();
             }
             "TRY" => {
                 let eb = unhex(f[1]); let ub = unhex(f[2]);
